@@ -238,6 +238,7 @@ def g_distributions(rng):
             {"id": "x.head", "type": "ViewParameter", "parameter": "x", "indices": "0:2"},
             {"id": "x.rev", "type": "ViewParameter", "parameter": "x", "indices": "::-1"},
             {"id": "xy", "type": "CatParameter", "parameters": ["x", "y"], "dim": -1},
+            {"id": "xy.mid", "type": "ViewParameter", "parameter": "xy", "indices": "1:3"},  # a view of a concatenation (entries of x)
             {"id": "y.log", "type": "TransformedParameter", "transform": "LogTransform", "x": "y"},
             {"id": "ylog.first", "type": "ViewParameter", "parameter": "y.log", "indices": "0:1"},
             {"id": "x.affine", "type": "TransformedParameter", "transform": "torch.distributions.AffineTransform", "parameters": {"loc": P("aff.loc", [0.5]), "scale": 2.0}, "x": "x"},
@@ -249,6 +250,7 @@ def g_distributions(rng):
             dist("d.head", "torch.distributions.Normal", "x.head", loc=0.0, scale=1.0),
             dist("d.rev", "torch.distributions.Normal", "x.rev", loc=P("rev.loc", [0.0, 0.1, 0.2, 0.3]), scale=1.0),
             dist("d.xy", "torch.distributions.Normal", "xy", loc=0.0, scale=P("xy.scale", [1.5])),
+            dist("d.xymid", "torch.distributions.Normal", "xy.mid", loc=0.3, scale=1.2),
             dist("d.affine", "torch.distributions.Normal", "x.affine", loc=0.0, scale=3.0),
             dist("d.convex", "torch.distributions.Exponential", "y.convex", rate=1.0),
             dist("d.cse", "torch.distributions.LogNormal", "x.cumsumexp", loc=0.0, scale=2.0),
@@ -269,11 +271,11 @@ def g_distributions(rng):
             {"id": "inner", "type": "JointDistributionModel", "distributions": ["d.normal", "d.lognormal", "y.log"]},
             {"id": "joint", "type": "JointDistributionModel", "distributions": ["inner", "d.gamma", "d.head", "d.rev", "d.xy", "d.affine", "mvn", "bridge", "mixture", "x.affine", "x.cumsumexp"]}]
     return {"name": "distributions", "spec": spec,
-            "evals": ["d.normal", "d.lognormal", "d.gamma", "d.head", "d.rev", "d.xy", "d.affine", "d.convex", "d.cse", "d.oneonx", "mvn", "detn", "bridge", "bridge.reg", "mixture", "gmrfcov", "lasso", "d.obs", "inner", "joint"],
+            "evals": ["d.normal", "d.lognormal", "d.gamma", "d.head", "d.rev", "d.xy", "d.xymid", "d.affine", "d.convex", "d.cse", "d.oneonx", "mvn", "detn", "bridge", "bridge.reg", "mixture", "gmrfcov", "lasso", "d.obs", "inner", "joint"],
             "leaves": {"beta": "real", "obs.y": "real", "x": "real", "y": "positive", "aff.loc": "real", "conv.w": "simplex", "n.loc": "real", "n.prec": "positive", "ln.mean": "positive", "ln.scale": "positive",
                        "g.conc": "positive", "g.rate": "positive", "rev.loc": "real", "xy.scale": "positive", "mvn.loc": "real", "mvn.tril.unres": "real", "detn.loc": "real", "detn.scale": "positive",
                        "bb.scale": "positive", "bb.alpha": "unit", "bbr.scale": "positive", "bbr.local": "positive", "bbr.slab": "positive", "sm.global": "positive", "sm.local": "positive", "gc.prec": "positive", "gc.beta": "real"},
-            "derived": ["x.first", "x.head", "x.rev", "xy", "y.log", "ylog.first", "x.affine", "y.convex", "x.cumsumexp", "mvn.tril", "beta.exp"], "tensors": {}}
+            "derived": ["x.first", "x.head", "x.rev", "xy", "xy.mid", "y.log", "ylog.first", "x.affine", "y.convex", "x.cumsumexp", "mvn.tril", "beta.exp"], "tensors": {}}
 
 
 def g_time_plain(rng):
